@@ -721,11 +721,10 @@ theorem owned_node (c : Nat) (d : Option Entry) (l m r : Node) :
 owned by the tree, no fault -/
 def RemSpec (t : Node) (mem : Mem) (q : RemRes) : Prop :=
   q.hit = true ∧ q.node.marked + 1 = t.marked ∧ q.mem.live + t.owned = mem.live + q.node.owned ∧
-  q.mem.fault = mem.fault ∧ q.mem.libc = mem.libc ∧ q.node.owned ≤ t.owned
+  q.mem.fault = mem.fault ∧ q.mem.libc = mem.libc ∧ q.node.owned < t.owned
 
 theorem RemSpec.rebuild {c : Nat} {d : Option Entry} {l m r t' : Node} {mem : Mem} {q : RemRes}
     (old : Node) (hq : RemSpec t' mem q) (hl : old.owned ≤ mem.live)
-    (ho : old.owned = 1 + (if d.isSome then 1 else 0) + l.owned + m.owned + r.owned + t'.owned - q.node.owned)
     (hm : old.marked + q.node.marked = (Node.node c d l m r).marked + t'.marked)
     (hn : old.owned + q.node.owned = (Node.node c d l m r).owned + t'.owned) :
     RemSpec old mem (CC.TST.rebuild c d l m r q) := by
@@ -733,14 +732,14 @@ theorem RemSpec.rebuild {c : Nat} {d : Option Entry} {l m r t' : Node} {mem : Me
   rcases rebuild_cases c d l m r q with g | g
   · obtain ⟨g1, g2, g3, g4, g5, g6, g7, g8⟩ := g
     subst g5 g6 g7 g8
-    simp only [owned_node, owned_nil, Node.marked] at hm hn ho
+    simp only [owned_node, owned_nil, Node.marked] at hm hn
     have f := free_spec q.mem (by simp at *; omega)
     refine ⟨by simp [h1], ?_, ?_, ?_, ?_, ?_⟩
     · rw [g1]; simp [Node.marked] at *; omega
     · rw [g1, g3, f.1]; simp at *; omega
     · rw [g3, f.2.1, h4]
     · rw [g3, f.2.2.1, h5]
-    · rw [g1]; simp
+    · rw [g1]; simp at *; omega
   · obtain ⟨g1, g2, g3, g4⟩ := g
     refine ⟨by simp [h1], ?_, ?_, ?_, ?_, ?_⟩
     · rw [g1]; omega
@@ -776,12 +775,452 @@ theorem remAt_spec (t : Node) (p : Path) (mem : Mem) (e : Entry)
     | cons dir p =>
       cases dir <;> simp only [Node.sub] at hd <;> simp only [Node.remAt]
       · have ih := ihl p hd (by omega)
-        exact ih.rebuild _ hl (by have := ih.2.2.2.2.2; omega) (by simp only [Node.marked]; have := ih.2.1; omega)
+        exact ih.rebuild _ hl (by simp only [Node.marked]; have := ih.2.1; omega)
           (by rw [hown, owned_node]; have := ih.2.2.2.2.2; omega)
       · have ih := ihm p hd (by omega)
-        exact ih.rebuild _ hl (by have := ih.2.2.2.2.2; omega) (by simp only [Node.marked]; have := ih.2.1; omega)
+        exact ih.rebuild _ hl (by simp only [Node.marked]; have := ih.2.1; omega)
           (by rw [hown, owned_node]; have := ih.2.2.2.2.2; omega)
       · have ih := ihr p hd (by omega)
-        exact ih.rebuild _ hl (by have := ih.2.2.2.2.2; omega) (by simp only [Node.marked]; have := ih.2.1; omega)
+        exact ih.rebuild _ hl (by simp only [Node.marked]; have := ih.2.1; omega)
           (by rw [hown, owned_node]; have := ih.2.2.2.2.2; omega)
+
+theorem heads_remAt (t : Node) (p : Path) (mem : Mem) : ∀ a ∈ (t.remAt p mem).node.heads, a ∈ t.heads := by
+  induction t generalizing p with
+  | nil => simp [Node.remAt, Node.heads]
+  | node c d l m r ihl ihm ihr =>
+    cases p with
+    | nil =>
+      simp only [Node.remAt]
+      cases d with
+      | none => simp
+      | some e => simp only []; split <;> simp [Node.heads]
+    | cons dir p =>
+      cases dir <;> simp only [Node.remAt]
+      · rcases rebuild_cases c d (l.remAt p mem).node m r (l.remAt p mem) with g | g <;> rw [g.1]
+        · simp [Node.heads]
+        · intro a ha
+          simp only [Node.heads, List.mem_cons, List.mem_append] at ha ⊢
+          rcases ha with ha | ha | ha
+          · exact Or.inl ha
+          · exact Or.inr (Or.inl (ihl p a ha))
+          · exact Or.inr (Or.inr ha)
+      · rcases rebuild_cases c d l (m.remAt p mem).node r (m.remAt p mem) with g | g <;> rw [g.1]
+        · simp [Node.heads]
+        · simp [Node.heads]
+      · rcases rebuild_cases c d l m (r.remAt p mem).node (r.remAt p mem) with g | g <;> rw [g.1]
+        · simp [Node.heads]
+        · intro a ha
+          simp only [Node.heads, List.mem_cons, List.mem_append] at ha ⊢
+          rcases ha with ha | ha | ha
+          · exact Or.inl ha
+          · exact Or.inr (Or.inl ha)
+          · exact Or.inr (Or.inr (ihr p a ha))
+
+theorem ordered_remAt (t : Node) (p : Path) (mem : Mem) (ho : t.Ordered cmp) :
+    (t.remAt p mem).node.Ordered cmp := by
+  induction t generalizing p with
+  | nil => simp [Node.remAt, Node.Ordered]
+  | node c d l m r ihl ihm ihr =>
+    obtain ⟨hl, hr, ol, om, or⟩ := ho
+    cases p with
+    | nil =>
+      simp only [Node.remAt]
+      cases d with
+      | none => exact ⟨hl, hr, ol, om, or⟩
+      | some e =>
+        simp only []; split
+        · trivial
+        · exact ⟨hl, hr, ol, om, or⟩
+    | cons dir p =>
+      cases dir <;> simp only [Node.remAt]
+      · rcases rebuild_cases c d (l.remAt p mem).node m r (l.remAt p mem) with g | g <;> rw [g.1]
+        · trivial
+        · exact ⟨fun a ha => hl a (heads_remAt l p mem a ha), hr, ihl p ol, om, or⟩
+      · rcases rebuild_cases c d l (m.remAt p mem).node r (m.remAt p mem) with g | g <;> rw [g.1]
+        · trivial
+        · exact ⟨hl, hr, ol, ihm p om, or⟩
+      · rcases rebuild_cases c d l m (r.remAt p mem).node (r.remAt p mem) with g | g <;> rw [g.1]
+        · trivial
+        · exact ⟨hl, fun a ha => hr a (heads_remAt r p mem a ha), ol, om, ihr p or⟩
+
+/-- the pruning loop leaves no unmarked leaf behind -/
+theorem pruned_remAt (t : Node) (p : Path) (mem : Mem) (hp : t.Pruned) : (t.remAt p mem).node.Pruned := by
+  induction t generalizing p with
+  | nil => simp [Node.remAt, Node.Pruned]
+  | node c d l m r ihl ihm ihr =>
+    obtain ⟨h0, pl, pm, pr⟩ := hp
+    cases p with
+    | nil =>
+      simp only [Node.remAt]
+      cases d with
+      | none => exact ⟨h0, pl, pm, pr⟩
+      | some e =>
+        simp only []; split
+        · trivial
+        · rename_i h
+          refine ⟨fun g => ?_, pl, pm, pr⟩
+          simp only [Bool.and_eq_true] at h
+          exact absurd ⟨⟨g.1, g.2.1⟩, g.2.2⟩ h
+    | cons dir p =>
+      cases dir <;> simp only [Node.remAt]
+      · rcases rebuild_cases c d (l.remAt p mem).node m r (l.remAt p mem) with g | g <;> rw [g.1]
+        · trivial
+        · refine ⟨fun h => ?_, ihl p pl, pm, pr⟩
+          simp only [Node.isNil_iff] at h h0
+          rcases remAt_nil_pruned l p mem h.1 with h1 | h1
+          · cases hd : d with
+            | none => exact absurd ⟨h1, h.1, h.2.1, h.2.2, hd⟩ g.2.2.2
+            | some e => rfl
+          · exact h0 ⟨h1, h.2.1, h.2.2⟩
+      · rcases rebuild_cases c d l (m.remAt p mem).node r (m.remAt p mem) with g | g <;> rw [g.1]
+        · trivial
+        · refine ⟨fun h => ?_, pl, ihm p pm, pr⟩
+          simp only [Node.isNil_iff] at h h0
+          rcases remAt_nil_pruned m p mem h.2.1 with h1 | h1
+          · cases hd : d with
+            | none => exact absurd ⟨h1, h.1, h.2.1, h.2.2, hd⟩ g.2.2.2
+            | some e => rfl
+          · exact h0 ⟨h.1, h1, h.2.2⟩
+      · rcases rebuild_cases c d l m (r.remAt p mem).node (r.remAt p mem) with g | g <;> rw [g.1]
+        · trivial
+        · refine ⟨fun h => ?_, pl, pm, ihr p pr⟩
+          simp only [Node.isNil_iff] at h h0
+          rcases remAt_nil_pruned r p mem h.2.2 with h1 | h1
+          · cases hd : d with
+            | none => exact absurd ⟨h1, h.1, h.2.1, h.2.2, hd⟩ g.2.2.2
+            | some e => rfl
+          · exact h0 ⟨h.1, h.2.1, h1⟩
+
+theorem keysOk_remAt (hc : CmpLaw cmp) (t : Node) (k : Key) (p : Path) (mem : Mem) (e : Entry)
+    (hk : k ≠ []) (hp : t.findPath cmp k = some p) (hd : (t.sub p).data? = some e)
+    (ho : t.Ordered cmp) (hko : t.KeysOk) : (t.remAt p mem).node.KeysOk := by
+  intro x hx
+  have h := lookup_of_mem_entries hc _ (ordered_remAt t p mem ho) x hx
+  rw [lookup_remAt hc t k x.1 p mem e hk (entries_key_ne_nil _ x hx) hp hd] at h
+  split at h
+  · cases h
+  · exact hko x (mem_entries_of_lookup hc t x.1 x.2 (entries_key_ne_nil _ x hx) h)
+
+/-! ### remove_all -/
+
+theorem freeAll_spec (t : Node) (s : Nat) (mem : Mem) (hs : t.marked ≤ s) (hl : t.owned ≤ mem.live) :
+    (t.freeAll s mem).1 = s - t.marked ∧ (t.freeAll s mem).2.live = mem.live - t.owned ∧
+    (t.freeAll s mem).2.fault = mem.fault ∧ (t.freeAll s mem).2.libc = mem.libc := by
+  induction t generalizing s mem with
+  | nil => simp [Node.freeAll, Node.marked]
+  | node c d l m r ihl ihm ihr =>
+    have hown := owned_node c d l m r
+    simp only [Node.marked] at hs
+    have a := ihl s mem (by omega) (by omega)
+    have b := ihm (l.freeAll s mem).1 (l.freeAll s mem).2 (by omega) (by omega)
+    have c' := ihr (m.freeAll (l.freeAll s mem).1 (l.freeAll s mem).2).1 (m.freeAll (l.freeAll s mem).1 (l.freeAll s mem).2).2
+      (by omega) (by omega)
+    simp only [Node.freeAll, Node.marked]
+    cases d with
+    | none =>
+      simp at hown hs
+      have f := free_spec (r.freeAll (m.freeAll (l.freeAll s mem).1 (l.freeAll s mem).2).1 (m.freeAll (l.freeAll s mem).1 (l.freeAll s mem).2).2).2 (by omega)
+      simp only []
+      refine ⟨by simp; omega, by rw [f.1]; omega, ?_, ?_⟩
+      · rw [f.2.1, c'.2.2.1, b.2.2.1, a.2.2.1]
+      · rw [f.2.2.1, c'.2.2.2, b.2.2.2, a.2.2.2]
+    | some e =>
+      simp at hown hs
+      have f := free_spec (r.freeAll (m.freeAll (l.freeAll s mem).1 (l.freeAll s mem).2).1 (m.freeAll (l.freeAll s mem).1 (l.freeAll s mem).2).2).2 (by omega)
+      have f2 := free_spec _ (show 0 < (r.freeAll (m.freeAll (l.freeAll s mem).1 (l.freeAll s mem).2).1 (m.freeAll (l.freeAll s mem).1 (l.freeAll s mem).2).2).2.free.live by omega)
+      simp only []
+      refine ⟨?_, by rw [f2.1, f.1]; omega, ?_, ?_⟩
+      · simp only [decSize]; split <;> simp <;> omega
+      · rw [f2.2.1, f.2.1, c'.2.2.1, b.2.2.1, a.2.2.1]
+      · rw [f2.2.2.1, f.2.2.1, c'.2.2.2, b.2.2.2, a.2.2.2]
+
+/-! ### the ideal map -/
+namespace SpecLemmas
+open CC.Spec
+
+theorem lookup_filter_ne (k k' : SKey) (l : List (SKey × Nat)) (h : k' ≠ k) :
+    List.lookup k' (l.filter fun e => e.1 != k) = List.lookup k' l := by
+  induction l with
+  | nil => rfl
+  | cons a l ih =>
+    obtain ⟨ak, av⟩ := a
+    by_cases hak : ak = k
+    · subst hak
+      have : (k' == ak) = false := by simpa using h
+      simp [List.filter, List.lookup, this, ih]
+    · have : (ak != k) = true := by simpa using hak
+      simp only [List.filter, this, List.lookup]
+      cases k' == ak <;> simp [ih]
+
+theorem lookup_filter_eq (k : SKey) (l : List (SKey × Nat)) :
+    List.lookup k (l.filter fun e => e.1 != k) = none := by
+  induction l with
+  | nil => rfl
+  | cons a l ih =>
+    obtain ⟨ak, av⟩ := a
+    by_cases hak : ak = k
+    · subst hak; simp [List.filter, ih]
+    · have h1 : (ak != k) = true := by simpa using hak
+      have h2 : (k == ak) = false := by simpa using (fun h : k = ak => hak h.symm)
+      simp [List.filter, h1, List.lookup, h2, ih]
+
+theorem get_add (s : StrMap) (k k' : SKey) (v : Nat) :
+    (s.add k v).get k' = if k' = k then some v else s.get k' := by
+  unfold StrMap.add StrMap.get
+  by_cases h : k' = k
+  · subst h; simp [List.lookup]
+  · have : (k' == k) = false := by simpa using h
+    simp [List.lookup, this, h, lookup_filter_ne k k' s.items h]
+
+theorem get_remove (s : StrMap) (k k' : SKey) :
+    (s.remove k).get k' = if k' = k then none else s.get k' := by
+  unfold StrMap.remove StrMap.get
+  by_cases h : k' = k
+  · subst h; simp [lookup_filter_eq]
+  · simp [h, lookup_filter_ne k k' s.items h]
+
+theorem wf_add (s : StrMap) (k : SKey) (v : Nat) (h : s.WF) : (s.add k v).WF := by
+  unfold StrMap.WF StrMap.keys StrMap.add at *
+  simp only [List.map_cons, List.nodup_cons]
+  refine ⟨?_, ?_⟩
+  · simp [List.mem_map, List.mem_filter]
+  · exact (List.Pairwise.filter _ (List.pairwise_map.mp h)) |> List.pairwise_map.mpr
+
+theorem wf_remove (s : StrMap) (k : SKey) (h : s.WF) : (s.remove k).WF := by
+  unfold StrMap.WF StrMap.keys StrMap.remove at *
+  exact (List.Pairwise.filter _ (List.pairwise_map.mp h)) |> List.pairwise_map.mpr
+
+theorem mem_iff_lookup (l : List (SKey × Nat)) (h : (l.map (·.1)).Nodup) (k : SKey) (v : Nat) :
+    (k, v) ∈ l ↔ List.lookup k l = some v := by
+  induction l with
+  | nil => simp [List.lookup]
+  | cons a l ih =>
+    obtain ⟨ak, av⟩ := a
+    simp only [List.map_cons, List.nodup_cons] at h
+    by_cases hk : k = ak
+    · subst hk
+      simp only [List.mem_cons, Prod.mk.injEq, true_and, List.lookup, beq_self_eq_true, Option.some.injEq]
+      constructor
+      · rintro (h1 | h1)
+        · exact h1.symm
+        · exact absurd (List.mem_map.mpr ⟨(k, v), h1, rfl⟩) h.1
+      · intro h1; exact Or.inl h1.symm
+    · have : (k == ak) = false := by simpa using hk
+      simp [List.lookup, this, hk, ih h.2]
+
+/-- in a well-formed association list membership and lookup agree -/
+theorem mem_iff_get (s : StrMap) (h : s.WF) (k : SKey) (v : Nat) : (k, v) ∈ s.items ↔ s.get k = some v :=
+  mem_iff_lookup s.items h k v
+
+theorem nodup_items (s : StrMap) (h : s.WF) : s.items.Nodup := by
+  unfold StrMap.WF StrMap.keys at h
+  exact (List.pairwise_map.mp h).imp (by intro a b hab e; exact hab (by rw [e]))
+
+/-- two well-formed maps with the same lookups hold the same pairs, up to order -/
+theorem perm_of_get_eq (s1 s2 : StrMap) (h1 : s1.WF) (h2 : s2.WF) (h : ∀ k, s1.get k = s2.get k) :
+    s1.items.Perm s2.items := by
+  apply (List.perm_ext_iff_of_nodup (nodup_items s1 h1) (nodup_items s2 h2)).mpr
+  intro ⟨k, v⟩
+  rw [mem_iff_get s1 h1, mem_iff_get s2 h2, h k]
+
+end SpecLemmas
+
+/-! ### abstraction -/
+
+theorem abs_wf (hc : CmpLaw cmp) (t : Table) (ho : t.root.Ordered cmp) (hko : t.root.KeysOk) : t.abs.WF := by
+  unfold Spec.StrMap.WF Spec.StrMap.keys Table.abs
+  simp only [List.map_map]
+  apply List.pairwise_map.mpr
+  apply (entries_distinct hc t.root ho).imp_of_mem
+  intro a b ha hb hab
+  simp only [Function.comp]
+  rw [hko a ha, hko b hb]; exact hab
+
+/-- the content seen through `abs` is what `lookup` finds (the empty key is not a key of the map) -/
+theorem abs_get (hc : CmpLaw cmp) (t : Table) (ho : t.root.Ordered cmp) (hko : t.root.KeysOk) (k : Key) :
+    t.abs.get k = if k = [] then none else (t.root.lookup cmp k).map (·.2) := by
+  apply Option.ext
+  intro v
+  rw [← SpecLemmas.mem_iff_get _ (abs_wf hc t ho hko)]
+  simp only [Table.abs, List.mem_map]
+  constructor
+  · rintro ⟨x, hx, hxe⟩
+    have h1 := hko x hx
+    have h2 := entries_key_ne_nil _ x hx
+    have h3 := lookup_of_mem_entries hc _ ho x hx
+    have : x.1 = k := by rw [← h1, hxe]
+    subst this
+    simp [h2, h3, hxe]
+  · intro h
+    split at h
+    · cases h
+    · rename_i hk
+      cases hl : t.root.lookup cmp k with
+      | none => simp [hl] at h
+      | some e =>
+        simp [hl] at h
+        have hm := mem_entries_of_lookup hc _ k e hk hl
+        have := hko _ hm
+        simp at this
+        exact ⟨(k, e), hm, by simp; exact Prod.ext this h⟩
+
+theorem abs_size (t : Table) (hs : t.size = t.root.marked) : t.abs.size = t.size := by
+  simp [Spec.StrMap.size, Table.abs, hs, marked_eq_length]
+
+/-! ### table-level operations -/
+
+theorem ins_unrefused (key : Key) (v : Nat) (t : Node) (ks : Key) (mem : Mem) (h : mem.sched = []) :
+    (t.ins cmp key v ks mem).st = .ok := by
+  induction t generalizing ks with
+  | nil =>
+    have a := allocChain_nil (chainLen ks) 0 mem h
+    have b := Mem.alloc_nil _ a.2
+    simp [Node.ins, a.1, b.1]
+  | node c d l m r ihl ihm ihr =>
+    have hs : (setData key v c d l m r mem).st = .ok := by
+      cases d with
+      | some e => simp [setData]
+      | none => simp [setData, (Mem.alloc_nil mem h).1]
+    cases ks with
+    | nil => simpa [Node.ins] using hs
+    | cons x xs =>
+      simp only [Node.ins]
+      cases cmp x c <;> simp only []
+      · exact ihl _
+      · cases xs with
+        | nil => exact hs
+        | cons y ys => exact ihm _
+      · exact ihr _
+
+/-- the invariant used for histories that never mention the empty key -/
+def Table.Good (cmp : Cmp) (t : Table) : Prop := t.Inv cmp ∧ t.root.KeysOk
+
+instance (cmp : Cmp) (t : Table) : Decidable (t.Good cmp) := by unfold Table.Good; infer_instance
+
+/-- the allocator ledger covers the table: header, nodes, entries -/
+def Table.Owns (t : Table) (mem : Mem) : Prop := t.root.owned + 1 ≤ mem.live
+
+theorem Table.add_spec (hc : CmpLaw cmp) (t : Table) (key : Key) (v : Nat) (mem : Mem)
+    (hk : key ≠ []) (hg : t.Good cmp) :
+    ((t.add cmp key v mem).1 = .ok →
+        (t.add cmp key v mem).2.1.Good cmp ∧
+        (∀ k, (t.add cmp key v mem).2.1.abs.get k = (t.abs.add key v).get k) ∧
+        (t.add cmp key v mem).2.2.live + t.root.owned = mem.live + (t.add cmp key v mem).2.1.root.owned) ∧
+    ((t.add cmp key v mem).1 ≠ .ok →
+        (t.add cmp key v mem).1 = .errAlloc ∧ (t.add cmp key v mem).2.1 = t ∧
+        (t.add cmp key v mem).2.2.live = mem.live) ∧
+    (t.add cmp key v mem).2.2.fault = mem.fault ∧ (t.add cmp key v mem).2.2.libc = mem.libc := by
+  obtain ⟨⟨hs, hp, ho⟩, hko⟩ := hg
+  have q := ins_spec (cmp := cmp) key v t.root key mem
+  unfold InsSpec at q
+  simp only [Table.add]
+  refine ⟨fun h => ?_, fun h => ?_, q.2.2.1, q.2.2.2⟩
+  · obtain ⟨q1, q2, q3⟩ := q.1 h
+    have ho' := ordered_insPure (cmp := cmp) (key, v) t.root key hk ho
+    have hko' := keysOk_insPure hc key v t.root hk ho hko
+    refine ⟨⟨⟨?_, ?_, ?_⟩, ?_⟩, ?_, q2⟩
+    · simp only; rw [q3, hs]; split <;> rfl
+    · simp only; rw [q1]; exact pruned_insPure _ _ _ hp
+    · simp only; rw [q1]; exact ho'
+    · simp only; rw [q1]; exact hko'
+    · intro k
+      rw [abs_get hc _ (by simp only; rw [q1]; exact ho') (by simp only; rw [q1]; exact hko'),
+        SpecLemmas.get_add, abs_get hc t ho hko]
+      simp only; rw [q1]
+      by_cases hk0 : k = []
+      · subst hk0; simp [Ne.symm hk]
+      · rw [lookup_insPure hc _ _ _ _ hk hk0]
+        simp only [hk0, if_false]
+        split <;> simp
+  · obtain ⟨q1, q2, q3, q4⟩ := q.2.1 h
+    refine ⟨q1, ?_, q4⟩
+    simp only [q2, q3]; rfl
+
+theorem Table.add_unrefused (t : Table) (key : Key) (v : Nat) (mem : Mem) (h : mem.sched = []) :
+    (t.add cmp key v mem).1 = .ok := ins_unrefused key v t.root key mem h
+
+theorem Table.get_spec (hc : CmpLaw cmp) (t : Table) (key : Key) (hk : key ≠ []) (hg : t.Good cmp) :
+    t.get cmp key = match t.abs.get key with
+      | some v => (.ok, some v)
+      | none => (.errKeyNotFound, none) := by
+  obtain ⟨⟨hs, hp, ho⟩, hko⟩ := hg
+  rw [abs_get hc t ho hko]
+  simp only [hk, if_false, Table.get]
+  cases t.root.lookup cmp key <;> simp
+
+theorem Table.containsKey_spec (hc : CmpLaw cmp) (t : Table) (key : Key) (hk : key ≠ []) (hg : t.Good cmp) :
+    t.containsKey cmp key = t.abs.contains key := by
+  simp only [Table.containsKey, Table.get_spec hc t key hk hg, Spec.StrMap.contains]
+  cases t.abs.get key <;> simp
+
+theorem Table.remove_spec (hc : CmpLaw cmp) (t : Table) (key : Key) (mem : Mem)
+    (hk : key ≠ []) (hg : t.Good cmp) (hl : t.Owns mem) :
+    match t.abs.get key with
+    | none => t.remove cmp key mem = (.errKeyNotFound, none, t, mem)
+    | some v =>
+      (t.remove cmp key mem).1 = .ok ∧ (t.remove cmp key mem).2.1 = some v ∧
+      (t.remove cmp key mem).2.2.1.Good cmp ∧
+      (∀ k, (t.remove cmp key mem).2.2.1.abs.get k = (t.abs.remove key).get k) ∧
+      (t.remove cmp key mem).2.2.2.live + t.root.owned = mem.live + (t.remove cmp key mem).2.2.1.root.owned ∧
+      (t.remove cmp key mem).2.2.1.root.owned < t.root.owned ∧
+      (t.remove cmp key mem).2.2.2.fault = mem.fault ∧ (t.remove cmp key mem).2.2.2.libc = mem.libc := by
+  obtain ⟨⟨hs, hp, ho⟩, hko⟩ := hg
+  rw [abs_get hc t ho hko]
+  simp only [hk, if_false]
+  have hlf := lookup_eq_findPath (cmp := cmp) t.root key
+  simp only [Table.remove]
+  cases hf : t.root.findPath cmp key with
+  | none => simp [hf] at hlf; simp [hlf]
+  | some p =>
+    simp only [hf, Option.bind_some] at hlf
+    cases hd : (t.root.sub p).data? with
+    | none => rw [hd] at hlf; simp [hlf, hd]
+    | some e =>
+      rw [hd] at hlf
+      simp only [hlf, Option.map_some, hd]
+      have q := remAt_spec t.root p mem e hd (by unfold Table.Owns at hl; omega)
+      obtain ⟨q1, q2, q3, q4, q5, q6⟩ := q
+      have ho' := ordered_remAt (cmp := cmp) t.root p mem ho
+      have hko' := keysOk_remAt hc t.root key p mem e hk hf hd ho hko
+      refine ⟨trivial, trivial, ⟨⟨?_, pruned_remAt _ _ _ hp, ho'⟩, hko'⟩, ?_, q3, ?_, q4, q5⟩
+      · simp only; rw [hs]; split <;> omega
+      · intro k
+        rw [abs_get hc _ ho' hko', SpecLemmas.get_remove, abs_get hc t ho hko]
+        by_cases hk0 : k = []
+        · subst hk0; simp
+        · simp only [hk0, if_false]
+          rw [lookup_remAt hc t.root key k p mem e hk hk0 hf hd]
+          split <;> simp
+      · exact q6
+
+theorem Table.removeAll_spec (t : Table) (mem : Mem) (hs : t.size = t.root.marked) (hl : t.Owns mem) :
+    (t.removeAll mem).1 = { size := 0, root := .nil } ∧
+    (t.removeAll mem).2.live = mem.live - t.root.owned ∧
+    (t.removeAll mem).2.fault = mem.fault ∧ (t.removeAll mem).2.libc = mem.libc := by
+  have := freeAll_spec t.root t.size mem (by omega) (by unfold Table.Owns at hl; omega)
+  simp only [Table.removeAll]
+  refine ⟨?_, this.2.1, this.2.2.1, this.2.2.2⟩
+  rw [this.1, hs]; simp
+
+theorem Table.good_empty : (Table.mk 0 .nil).Good cmp := by
+  refine ⟨⟨rfl, trivial, trivial⟩, ?_⟩
+  intro x hx; simp [Node.entries] at hx
+
+theorem Table.new_spec (mem : Mem) :
+    ((Table.new mem).1 = .ok → (Table.new mem).2.1 = some ⟨0, .nil⟩ ∧ (Table.new mem).2.2.live = mem.live + 1) ∧
+    ((Table.new mem).1 ≠ .ok → (Table.new mem).1 = .errAlloc ∧ (Table.new mem).2.1 = none ∧
+        (Table.new mem).2.2.live = mem.live) ∧
+    (Table.new mem).2.2.fault = mem.fault := by
+  unfold Table.new
+  rcases Bool.eq_false_or_eq_true mem.alloc.1 with ha | ha
+  · have a := Mem.alloc_fst_true mem ha; simp [ha, a]
+  · have a := Mem.alloc_fst_false mem ha; simp [ha, a]
+
+theorem Table.destroy_spec (t : Table) (mem : Mem) (hs : t.size = t.root.marked) (hl : t.Owns mem) :
+    (t.destroy mem).live = mem.live - t.root.owned - 1 ∧ (t.destroy mem).fault = mem.fault := by
+  have := Table.removeAll_spec t mem hs hl
+  unfold Table.Owns at hl
+  have f := free_spec (t.removeAll mem).2 (by omega)
+  simp only [Table.destroy]
+  exact ⟨by rw [f.1, this.2.1], by rw [f.2.1, this.2.2.1]⟩
 end CC.TST
